@@ -1157,10 +1157,10 @@ def run_s6(seed, tier, log):
     if q.returncode != 1:
         fail('action-both', 'action-run.sh with both output_dir and output_file', 'exit status %d, expected 1' % q.returncode)
     raw = os.path.join(tmp, 'raw.pkl')
-    q = subprocess.run(['bash', script], stdout=subprocess.PIPE, stderr=subprocess.PIPE, env=dict(base, INPUT_ARGS=' '.join(vec_argv(v)) + ' ' + raw))
+    q = subprocess.run(['bash', script], stdout=subprocess.PIPE, stderr=subprocess.PIPE, env=dict(base, INPUT_ARGS=raw + ' ' + ' '.join(vec_argv(v))))   # FILE first: `--mutators` takes any number of values
     nrun += 2
     if q.returncode != 0 or not os.path.exists(raw) or open(raw, 'rb').read() != expect.get(v['id']):
-        fail('action-args', 'action-run.sh with INPUT_ARGS=' + ' '.join(vec_argv(v)) + ' FILE', 'exit %d or bytes differ from the library' % q.returncode)
+        fail('action-args', 'action-run.sh with INPUT_ARGS=FILE ' + ' '.join(vec_argv(v)), 'exit %d or bytes differ from the library' % q.returncode)
     # 5. the Python extension module and PickleMutator: call sequences on one object = histories on one Generator
     rng = SplitMix64(seed ^ 0x9713)
     seqs, hist_cases = [], []
